@@ -25,6 +25,8 @@ CONSTANTS RemoveExt,      \* RemoveNonCalicoWorkloadRoutes
                           \* on the real code away from confirmed defect F1
           TwoKeys,        \* BOOLEAN: second destination in the universe
           Wl2,            \* BOOLEAN: second workload interface (cali2) with a conflicting lower-priority route
+          SameCls,        \* BOOLEAN: cali2's conflicting route is in the SAME class as cali1's (tie-break inside a
+                          \* class) instead of a lower-priority class
           MaxInit,        \* number of routes in the starting kernel
           EarlyForget,    \* TRUE: as the code - an early (conntrack-ordering) RouteDel leaves the Dataplane()
                           \* tracker untouched; FALSE: the intended design - the tracker forgets the route
@@ -57,7 +59,8 @@ Eth0 == [name |-> "eth0", idx |-> 2, up |-> TRUE]
 T(dst, tt, gw, proto) == [dst |-> dst, prio |-> 0, tt |-> tt, gw |-> gw, src |-> "", proto |-> proto, mtu |-> 0]
 \* what Felix may be asked for: (class, interface, target)
 WantU == { <<0, "cali1", T(d, "", "", 0)>> : d \in Dsts }
-         \cup (IF Wl2 THEN { <<4, "cali2", T(K1, "vxlan", "172.16.0.1", 0)>> } ELSE {})
+         \cup (IF Wl2 THEN { IF SameCls THEN <<0, "cali2", T(K1, "", "172.16.0.1", 0)>>
+                                          ELSE <<4, "cali2", T(K1, "vxlan", "172.16.0.1", 0)>> } ELSE {})
          \cup { <<8, A!NoOIF, T(K1, "blackhole", "", 80)>> }
 Names == IF Wl2 THEN {"cali1", "cali2"} ELSE {"cali1"}
 \* what the environment may put into the kernel: (table, dst, interface name or NoOIF, proto, gw, type)
